@@ -176,4 +176,19 @@ CHECKS = {
         thorough=[R("^TestFixed$", 1, 1, 500), R("^TestOwnership$", 150, 15, 3400, shrinktime="180s")],
         floors={"multi-env": ("TestOwnership", 0.25)},
     ),
+    "C06": dict(
+        pkg="./props/c06", bins=["./cmd/simcore"], level="fault_enumeration",
+        rule=("whole core against the simulated world; rapid-generated teardown scenarios: workflow with 1-3 tasks, 0-3 DESTROY/after_DESTROY probe "
+              "hooks at weights -2..2, optionally a call whose await point is never reached; either drive to DEPLOYED/CONFIGURED/RUNNING/ERROR and "
+              "destroy with drawn force / allowInRunningState / keepTasks flags (rarely with every KILL refused by the master), or make the "
+              "creation fail at a drawn stage (template error, detector in use, launch failure, no agent, critical CONFIGURE error). Oracle after "
+              "the call returns: not listed, no launched task still locked, every task ever owned received a KILL unless keepTasks, unowned "
+              "leftovers die at the next CleanupTasks, detectors free and the workflow can be created again, no hook-call goroutine left "
+              "(pprof dump of the core), DESTROY hooks ran exactly once and only when no task was owned any more, refused kills => error. "
+              "Every case is non-trivial; distinct = distinct case digests."),
+        assumptions=["goroutine leak detection reads the core's own net/http/pprof dump (served by simcore on a private port)",
+                     "an HTTP-level refusal of KILL disconnects the mesos-go client; such cases end the shared world"],
+        quick=[R("^TestFixed$", 1, 1, 600), R("^TestTeardown$", 10, 10, 800, shrinktime="90s")],
+        thorough=[R("^TestFixed$", 1, 1, 600), R("^TestTeardown$", 200, 15, 3400, shrinktime="180s")],
+    ),
 }
